@@ -6,7 +6,7 @@ static mut RACY: u64 = 0;
 
 pub fn run(kind: &str) -> i32 {
     match kind {
-        "asan" | "miri" => {
+        "asan" | "miri" | "memcheck" => {
             // heap buffer overflow (read one past the allocation)
             let v = vec![1u8; 8];
             let p = v.as_ptr();
